@@ -214,6 +214,64 @@ def F15():
     return (not returned), f"asyncio worker_serve returned={returned} {took:.2f}s after the trigger (graceful_timeout 0.3s + shutdown_timeout 0.5s)"
 
 
+def F14a():
+    """asyncio worker: the application answers lifespan.startup with lifespan.startup.failed and then
+    does some asynchronous clean-up while the error unwinds (try / finally with an await).  The
+    startup event is already set, wait_for_startup() returns, the lifespan task is not done yet, so
+    worker_serve goes on to open its listeners and serves a request; the failure only surfaces
+    later.  (The trio worker is cancelled through its nursery and serves nothing.)"""
+    import socket as _socket
+
+    from hypercorn.app_wrappers import ASGIWrapper
+    from hypercorn.asyncio.run import worker_serve
+    from hypercorn.config import Sockets
+
+    served = []
+
+    async def app(scope, receive, send, sync_spawn=None, call_soon=None):
+        if scope["type"] == "lifespan":
+            await receive()
+            try:
+                await send({"type": "lifespan.startup.failed", "message": "no database"})
+            finally:
+                await asyncio.sleep(0.6)  # clean-up while the failure unwinds
+        else:
+            served.append(scope["path"])
+            await send({"type": "http.response.start", "status": 200, "headers": [(b"content-length", b"2")]})
+            await send({"type": "http.response.body", "body": b"ok"})
+
+    async def main():
+        cfg = _config()
+        ls = _socket.socket()
+        ls.bind(("127.0.0.1", 0))
+        ls.listen(5)
+        ls.setblocking(False)
+        port = ls.getsockname()[1]
+        trigger = asyncio.Event()
+        task = asyncio.ensure_future(worker_serve(ASGIWrapper(app), cfg, sockets=Sockets([], [ls], []), shutdown_trigger=trigger.wait))
+        await asyncio.sleep(0.2)
+        status = None
+        try:
+            r, w = await asyncio.wait_for(asyncio.open_connection("127.0.0.1", port), 1.0)
+            w.write(b"GET /x HTTP/1.1\r\nHost: x\r\nConnection: close\r\n\r\n")
+            await w.drain()
+            head = await asyncio.wait_for(r.read(200), 1.0)
+            status = head.split(b"\r\n", 1)[0]
+            w.close()
+        except Exception as e:  # nothing was served
+            status = repr(e)
+        trigger.set()
+        try:
+            await asyncio.wait_for(task, 3.0)
+            outcome = "returned"
+        except BaseException as e:
+            outcome = type(e).__name__
+        return status, outcome
+
+    status, outcome = asyncio.run(main())
+    return (served == ["/x"] and status is not None and status.startswith(b"HTTP/1.1 200")), f"after lifespan.startup.failed the worker served {served} (first response line {status!r}); worker_serve ended with {outcome}"
+
+
 SCENARIOS = {k: v for k, v in globals().items() if k.startswith("F") and callable(v)}
 
 if __name__ == "__main__":
